@@ -293,12 +293,13 @@ func genC25T(seed uint64) *Plan {
 	r := propRand("C25T", seed)
 	pl := &Plan{Prop: "C25", Engine: "ribsim", Seed: seed, DUT: DUTCfg{RouterID: 1, LocalAS: 65000}}
 	pl.Sim = SimCfg{ShuffleMaps: r.Chance(0.7), GateProb: pick(r, []float64{0.3, 0.7, 1}), Sticky: pick(r, []float64{0, 0.5, 0.8}), RandomHandoff: r.Chance(0.5)}
+	pl.Sim.Priority = r.Chance(0.4)
 	nc := 4
 	for i := 0; i < nc; i++ {
 		pl.Cands = append(pl.Cands, genCand(r, false))
 	}
-	kinds := []string{"add", "remove", "register", "unregister", "refresh", "export", "dump", "dispose"}
-	wts := map[string]int{"add": 10, "remove": 5, "register": 3, "unregister": 3, "refresh": 2, "export": 4, "dump": 2, "dispose": 1}
+	kinds := []string{"add", "remove", "register", "unregister", "refresh", "export", "dump", "dispose", "replace"}
+	wts := map[string]int{"add": 10, "remove": 5, "register": 3, "unregister": 3, "refresh": 2, "export": 4, "dump": 2, "dispose": 1, "replace": 4}
 	if r.Chance(0.6) {
 		wts["dispose"] = 0
 	}
@@ -370,6 +371,9 @@ func (o *c25TOracle) apply(w *World, i int, s *Step) {
 		w.Go("LocRIB.AddPath", func() { o.rib.AddPath(pfx, cands[s.N].build(s.N)) })
 	case "remove":
 		w.Go("LocRIB.RemovePath", func() { o.rib.RemovePath(pfx, cands[s.N].build(s.N)) })
+	case "replace":
+		nw := (s.N + 1) % len(cands)
+		w.Go("LocRIB.ReplacePath", func() { o.rib.ReplacePath(pfx, cands[s.N].build(s.N), cands[nw].build(nw)) })
 	case "register":
 		c := o.clients[s.Peer]
 		w.Go("LocRIB.RegisterWithOptions("+c.name+")", func() { o.rib.RegisterWithOptions(c, routingtable.ClientOptions{EcmpOnly: true}) })
